@@ -169,8 +169,6 @@ fn ticks_ms(t: u64) -> u64 {
 /// searches in the same process; the CPU time the process consumes between the go and its
 /// bestmove must stay below T + CPU_ALLOW_MS.
 fn part_blackbox(bytes: &[u8], stats: &mut Stats) -> Verdict {
-    use crate::blackbox::{Proc, Wait};
-    use std::time::{Duration, Instant};
     let mut s = Src::new(bytes);
     let (p, kind) = match s.weighted(&[50, 25, 25]) {
         0 => (gen::g_motif_n(&mut s, 8), "explosive"),
@@ -196,10 +194,6 @@ fn part_blackbox(bytes: &[u8], stats: &mut Stats) -> Verdict {
     };
     let warm_depth = 1 + s.below(5) as u8;
     let warm = s.chance(45) && crate::script::cheap_search(&p, warm_depth, 400_000);
-    let mut pr = match Proc::spawn() {
-        Ok(p) => p,
-        Err(e) => return Err(Failure::new("harness-engine-missing", json!({"error": e}))),
-    };
     let mut script = Vec::new();
     if warm {
         // an earlier depth-limited search of the same position, possibly longer than the budget of the go under test
@@ -207,6 +201,26 @@ fn part_blackbox(bytes: &[u8], stats: &mut Stats) -> Verdict {
         script.push(format!("go depth {}", warm_depth));
     }
     script.push(format!("position fen {}", fen));
+    judge_blackbox(&script, &go, t_ms, kind, stats)
+}
+
+/// `script` (position / earlier go lines), then `go` with a budget of `t_ms`: CPU time consumed
+/// between that go and its bestmove must stay below t_ms + CPU_ALLOW_MS.
+fn judge_blackbox(script: &[String], go: &str, t_ms: u64, kind: &str, stats: &mut Stats) -> Verdict {
+    use crate::blackbox::{Proc, Wait};
+    use std::time::{Duration, Instant};
+    let script: Vec<String> = script.to_vec();
+    let go = go.to_string();
+    let warm = script.iter().any(|l| l.starts_with("go"));
+    let fen = script.iter().rev().find(|l| l.starts_with("position fen ")).map(|l| l["position fen ".len()..].to_string()).unwrap_or_default();
+    let p = match Pos::from_fen(&fen) {
+        Ok(x) => x.0,
+        Err(_) => Pos::startpos(),
+    };
+    let mut pr = match Proc::spawn() {
+        Ok(p) => p,
+        Err(e) => return Err(Failure::new("harness-engine-missing", json!({"error": e}))),
+    };
     for l in &script {
         pr.send(l);
     }
@@ -242,7 +256,7 @@ fn part_blackbox(bytes: &[u8], stats: &mut Stats) -> Verdict {
             pr.kill();
             return Err(Failure::new(
                 "cpu-work-after-deadline",
-                json!({"fen": fen, "go": go, "budget_ms": t_ms, "cpu_ms_used_since_go": used, "allowed_ms": t_ms + CPU_ALLOW_MS, "answered": answered, "earlier_search_in_process": warm, "gen": kind}),
+                json!({"fen": fen, "go": go, "budget_ms": t_ms, "cpu_ms_used_since_go": used, "allowed_ms": t_ms + CPU_ALLOW_MS, "answered": answered, "earlier_search_in_process": warm, "gen": kind, "script": script}),
             ));
         }
         if answered {
@@ -315,6 +329,11 @@ pub fn run(tier: Tier, seed: u64, known: &Known) -> PropRun {
 
 pub fn replay(part: &str, bytes: &[u8], case: &Value, stats: &mut Stats) -> Verdict {
     KMAX.with(|c| c.set(3_000_000));
+    // structural replay of a black-box case: the saved script, go line and budget
+    if let (Some(sc), Some(go), Some(t)) = (case.get("script").and_then(|x| x.as_array()), case.get("go").and_then(|x| x.as_str()), case.get("budget_ms").and_then(|x| x.as_u64())) {
+        let script: Vec<String> = sc.iter().filter_map(|x| x.as_str().map(|s| s.to_string())).collect();
+        return judge_blackbox(&script, go, t, "replay", stats);
+    }
     // structural replay of an in-process case: (earlier searches, FEN, depth, deadline)
     if let (Some(fen), Some(d), Some(k)) = (case.get("fen").and_then(|x| x.as_str()), case.get("depth").and_then(|x| x.as_u64()), case.get("deadline_nodes").and_then(|x| x.as_u64())) {
         if let Some(p) = eng::pos_from_saved_fen(fen) {
